@@ -88,10 +88,24 @@ class VersionConverter(object):
                 cls._parse_dict_sections(root, parsed_doc['sections'])
             elif elem:
                 curr_element = ET.Element(elem)
-                curr_element.text = parsed_doc[elem]
+                curr_element.text = cls._dict_text(parsed_doc[elem])
                 root.append(curr_element)
 
         return ET.ElementTree(root)
+
+    @staticmethod
+    def _dict_text(content):
+        """
+        JSON and YAML files hold numbers, booleans and dates as such (e.g. 'version: 1.0');
+        an XML element holds their text.
+
+        :param content: scalar content of a JSON or YAML entry.
+        :return: the content as text; None for an empty entry.
+        """
+        if content is None or isinstance(content, str):
+            return content
+
+        return str(content)
 
     @classmethod
     def _parse_dict_sections(cls, parent_element, section_list):
@@ -113,7 +127,7 @@ class VersionConverter(object):
                     cls._parse_dict_sections(sec, section['sections'])
                 elif element:
                     elem = ET.Element(element)
-                    elem.text = section[element]
+                    elem.text = cls._dict_text(section[element])
                     sec.append(elem)
 
             parent_element.append(sec)
@@ -136,7 +150,7 @@ class VersionConverter(object):
                     cls._parse_dict_values(prop, curr_prop['values'])
                 elif element:
                     elem = ET.Element(element)
-                    elem.text = curr_prop[element]
+                    elem.text = cls._dict_text(curr_prop[element])
                     prop.append(elem)
 
             parent_element.append(prop)
